@@ -18,6 +18,8 @@ TRUSTED = ["harness/translate_kernel.py: fail-closed ast translator of _find_pro
            "CPython heapq contract", "str(float) / configparser.getfloat round trip is the identity (exercised on every saved probability)",
            "the saved probability is that of the popped, un-guessed pre-terminal (session loop, see C12)"]
 ASSUMES = ["ruleset well-formed (wf)", "min_probability = 0.0 (PcfgQueue never changes it)"]
+import cli_tie as _cli_tie
+TRUSTED = TRUSTED + [_cli_tie.TRUSTED]
 
 
 def cut_points(U):
@@ -259,9 +261,17 @@ def run(ctx):
             corr.append(("resume-run:" + name, True, ""))
     import kernel_tie
     corr.append(kernel_tie.obligation())
+    # translator tie of main / load_save (the resume decision, the uuid test, the save file name, what the restored session
+    # is given) + its correspondence against the real functions
+    import cli_tie
+    corr += cli_tie.obligations("C08")
+    c2, v2, st = cli_tie.run(ctx, "C08", n_saveload=ctx.scale(30, 200), n_main=ctx.scale(70, 500))
+    corr += c2
+    vio += v2
+    dist.update(st)
     rule = ("random tie-rich rulesets (as C01, <= %d pre-terminals); for EVERY cut k the state a real PcfgQueue saves after "
             "its (k+1)-th pop is restored by a new PcfgQueue and run to exhaustion; oracle against the uninterrupted run for "
-            "every k; plus two-cycle histories and the uuid refusal through the CLI; non-trivial = the saved probability is "
+            "every k; plus two-cycle histories and the uuid refusal through the CLI, and generated command lines / save files / ruleset uuids run through the real main and load_save (recording stand-ins, harness/cli_tie.py) against the model; non-trivial = the saved probability is "
             "shared by >= 2 pre-terminals or a restored node has >= 2 parents; distinct by (tables, saved probability)" % cap)
     return {"evaluations": dist["cuts"], "distinct_nontrivial": nontrivial, "rule": rule, "samples": samples,
             "corr": corr, "violations": vio, "dist": dist}
@@ -269,6 +279,9 @@ def run(ctx):
 
 def replay(ctx, data):
     inp = data.get("input") or {}
+    if inp.get("cli") in ("parse", "main", "saveload"):
+        import cli_tie
+        return cli_tie.replay(ctx, "C08", inp)
     if inp.get("cli") == "main-history":
         code = common.copy_code_tree(common.scratch())
         v, _ = main_history(ctx, code, inp["ruleset"], inp["ruleset"].get("name", "H0"))
